@@ -105,7 +105,12 @@ def collect(  # noqa: C901, PLR0912, PLR0915
                 logger.debug("skipping index collection for data with invalid fsid")
                 continue
 
-            key = (fsid, tokenize(data.path))
+            if cache is None:
+                key = (fsid, tokenize(data.path))
+            else:
+                # NOTE: entries stored in the same data storage might belong to
+                # different caches, which have to be collected separately.
+                key = (fsid, tokenize(data.path, cache.fs.protocol, cache.path))
 
             if key not in storage_by_fs and cache_index.has_node((*cache_key, *key)):
                 skip.add(key)
